@@ -323,7 +323,20 @@ pub fn n5_publish_bad_prop(s: &mut Src) {
         Err(e) => { vcover!(true, "rej"); done(e); }
     }
 }
+pub fn t1_v5_any2(s: &mut Src) {
+    let b: [u8; 2] = s.bytes();
+    let r5 = fe::v5::blocking(&b);
+    vcover!(matches!(&r5, Ok(None)), "incomplete");
+    vcover!(matches!(&r5, Err(_)), "error");
+    vcover!(matches!(&r5, Ok(Some(_))), "packet");
+    done(r5);
+}
 scenarios! {
+    #[kani::unwind(8)]
+    #[kani::stub(<mqtt_proto_sync::Error as std::convert::From<std::io::Error>>::from, crate::model::from_io_eof_stub)]
+    #[kani::stub(simdutf8::basic::from_utf8, crate::model::from_utf8_class_stub)]
+    #[kani::stub(<std::io::Error as std::string::ToString>::to_string, crate::model::io_to_string_stub)]
+    probe_t1_v5_any2 [2] => t1_v5_any2;
     #[kani::unwind(8)]
     #[kani::stub(<mqtt_proto_sync::Error as std::convert::From<std::io::Error>>::from, crate::model::from_io_eof_stub)]
     probe_n4_pubprops_bad_after_alloc [1] => n4_pubprops_bad_after_alloc;
